@@ -28,11 +28,12 @@ let to_opts = function
   | _ -> bad "opts"
 
 let handler = function
-  (* 1: main(): options, FILE texts, stdin text -> (stdout text, exit status is 1) *)
-  | L [I 1; o; files; stdin] ->
+  (* 2: the certificates of Properties/C20c.v for (options, stdin text) -> (first, general) *)
+  | L [I 2; o; stdin] ->
       (match to_opts o with
        | None -> L [I (-3)]
-       | Some o -> of_outcome (fun (s, b) -> L [of_str s; of_bool b]) (run o (to_list to_str files) (to_str stdin)))
+       | Some o -> let s = to_str stdin in
+                   L [of_bool (idempotence_certificate o s); of_bool (general_certificate o s)])
   | _ -> failwith "unknown command"
 
 let () = serve handler
